@@ -375,6 +375,10 @@ def run_states(ctx):
             problems.append("cancelled-input-not-mirrored(pending)")
         if how == "pending" and nc.done():
             problems.append("done-while-input-pending")
+        # mirroring includes the waiter API: a wrapper that is done must be reported as done by wait()
+        import concurrent.futures as _cf
+        if nc.done() and _cf.wait([nc], timeout=0).not_done:
+            problems.append("done-but-wait()-says-not-done")
         ctx.case({"k": ["nocancel", how]}, True, ["nocancel:" + how], sample={"f_nocancel_input_ends_by": how, "cancel_returns": [c1, c2], "wrapper_done": nc.done()})
         for pr in problems:
             ctx.violation("C17:nocancel:%s:%s" % (how, pr), {"kind": "nocancel", "how": how}, {"problem": pr})
@@ -435,6 +439,9 @@ def run_compositions(ctx):
                 problems.append("error-not-mirrored")
             elif how == "cancel" and not (outer.cancelled() or outer.exception() is not None):
                 problems.append("cancel-not-mirrored")
+            import concurrent.futures as _cf
+            if outer.done() and _cf.wait([outer], timeout=0).not_done:
+                problems.append("done-but-wait()-says-not-done")
         key = {"k": ["compose", oname, iname, how, exc_cls.__name__ if exc_cls else None, when]}
         ctx.case(key, True, ["compose:%s(%s)" % (oname, iname), "ends:" + how], sample={"wrapper": oname, "of": iname, "input_ends_by": how, "when": when, "problems": problems})
         for pr in problems:
